@@ -23,7 +23,7 @@ fn inputs(tier: Tier) -> Vec<(String, Vec<u8>)> {
     let mut v: Vec<(String, Vec<u8>)> = vec![];
     // (i) all strings of length <=3 over a 6-letter alphabet, all of length <=8 over {00,FF}
     let a6 = [0x00u8, 0x01, 0x7F, 0x80, 0x81, 0xFF];
-    for l in 0..=3u32 {
+    for l in 0..=tier.pick(3u32, 5) {
         for x in 0..6u64.pow(l) {
             let mut y = x;
             let mut s = vec![];
@@ -34,14 +34,35 @@ fn inputs(tier: Tier) -> Vec<(String, Vec<u8>)> {
             v.push((format!("all6^{l}#{x}"), s));
         }
     }
-    for l in 4..=8u32 {
+    for l in 4..=tier.pick(8u32, 14) {
         for x in 0..2u64.pow(l) {
             let s: Vec<u8> = (0..l).map(|b| if (x >> b) & 1 == 1 { 0xFF } else { 0x00 }).collect();
             v.push((format!("all2^{l}#{x}"), s));
         }
     }
+    if tier == Tier::Thorough {
+        // all strings of length 6..9 over {00, 41, FF}
+        let a3 = [0x00u8, 0x41, 0xFF];
+        for l in 6..=9u32 {
+            for x in 0..3u64.pow(l) {
+                let mut y = x;
+                let s: Vec<u8> = (0..l)
+                    .map(|_| {
+                        let c = a3[(y % 3) as usize];
+                        y /= 3;
+                        c
+                    })
+                    .collect();
+                v.push((format!("all3^{l}#{x}"), s));
+            }
+        }
+    }
     // (ii) run-length families around the RLE/sparse boundaries
-    let ns: Vec<usize> = (0..=5).chain(126..=131).chain(254..=258).collect();
+    let ns: Vec<usize> = if tier == Tier::Quick {
+        (0..=5).chain(126..=131).chain(254..=258).collect()
+    } else {
+        (0..=8).chain(62..=66).chain(126..=135).chain(254..=264).chain(510..=514).chain(1022..=1026).chain(4094..=4098).collect()
+    };
     for &n in &ns {
         for (a, b) in [(0x00u8, 0x41u8), (0x41, 0x00), (0xFF, 0x80)] {
             v.push((format!("a^{n} a={a:#x}"), vec![a; n]));
@@ -67,10 +88,31 @@ fn inputs(tier: Tier) -> Vec<(String, Vec<u8>)> {
             v.push((format!("breakeven total={total} random_prefix={k}"), d));
         }
     }
+    if tier == Tier::Thorough {
+        // more totals (up to the default sector size), and compressible tails other than zeros
+        for total in [33usize, 64, 100, 200, 256, 1000, 1024, 4096] {
+            for k in 0..=total {
+                let mut d = gen::content("incompressible", k, 4096, 12);
+                d.resize(total, 0);
+                v.push((format!("breakeven total={total} random_prefix={k}"), d));
+            }
+        }
+        for total in [86usize, 128, 300, 512, 1024] {
+            for tail in ["period2", "sparse", "period251"] {
+                for k in 0..=total {
+                    let mut d = gen::content("incompressible", k, 4096, 13);
+                    let t = gen::content(tail, total - k, 4096, 14);
+                    d.extend_from_slice(&t);
+                    v.push((format!("breakeven total={total} random_prefix={k} tail={tail}"), d));
+                }
+            }
+        }
+    }
     // (iii) size ladder x texture
-    let mut ladder: Vec<usize> = (0..=17).collect();
-    let kmax = tier.pick(17, 21);
-    for k in 5..=kmax {
+    // thorough: every length up to 1100 (not only the powers of two), then the power ladder to 2^23
+    let mut ladder: Vec<usize> = (0..=tier.pick(17, 1100)).collect();
+    let kmax = tier.pick(17, 23);
+    for k in tier.pick(5, 11)..=kmax {
         ladder.extend([(1usize << k) - 1, 1 << k, (1 << k) + 1]);
     }
     for &l in &ladder {
@@ -83,23 +125,31 @@ fn inputs(tier: Tier) -> Vec<(String, Vec<u8>)> {
 
 struct Main {
     inputs: Vec<(String, Vec<u8>)>,
+    sels: Vec<(String, u8, bool)>,
+}
+fn named_sels() -> Vec<(String, u8, bool)> {
+    SEL.iter().map(|(n, m, l)| (n.to_string(), *m, *l)).collect()
+}
+/// every method byte; a selector without an ADPCM bit (0x40 / 0x80) that the compressor accepts is lossless
+fn all_sels() -> Vec<(String, u8, bool)> {
+    (0..=255u8).map(|m| (format!("method-byte-{m:#04x}"), m, m & 0xC0 == 0)).collect()
 }
 impl Space for Main {
     fn len(&self) -> u64 {
-        (self.inputs.len() * SEL.len()) as u64
+        (self.inputs.len() * self.sels.len()) as u64
     }
     fn describe(&self, i: u64) -> Value {
-        let s = (i as usize) % SEL.len();
-        let k = (i as usize) / SEL.len();
-        json!({"selector": SEL[s].0, "method": format!("{:#04x}", SEL[s].1), "input": self.inputs[k].0, "len": self.inputs[k].1.len()})
+        let s = (i as usize) % self.sels.len();
+        let k = (i as usize) / self.sels.len();
+        json!({"selector": self.sels[s].0, "method": format!("{:#04x}", self.sels[s].1), "input": self.inputs[k].0, "len": self.inputs[k].1.len()})
     }
     fn case_timeout(&self) -> u64 {
         120
     }
     fn run(&self, i: u64) -> CaseResult {
-        let s = (i as usize) % SEL.len();
-        let k = (i as usize) / SEL.len();
-        let (sname, m, lossless) = SEL[s];
+        let s = (i as usize) % self.sels.len();
+        let k = (i as usize) / self.sels.len();
+        let (sname, m, lossless) = (self.sels[s].0.as_str(), self.sels[s].1, self.sels[s].2);
         let d = &self.inputs[k].1;
         let mut r = CaseResult::new();
         r.key = format!("{i}");
@@ -213,7 +263,8 @@ impl Space for Adpcm {
 
 fn build(name: &str, _arg: &str, tier: Tier) -> Box<dyn Space> {
     match name {
-        "main" => Box::new(Main { inputs: inputs(tier) }),
+        "main" => Box::new(Main { inputs: inputs(tier), sels: named_sels() }),
+        "allsel" => Box::new(Main { inputs: inputs(Tier::Quick), sels: all_sels() }),
         "adpcm" => Box::new(Adpcm),
         _ => panic!("space {name}"),
     }
@@ -221,11 +272,14 @@ fn build(name: &str, _arg: &str, tier: Tier) -> Box<dyn Space> {
 
 fn main() {
     let Mode::Supervisor(mut c) = start("C03", "exploration", build) else { return };
-    c.rule = "selectors x inputs; inputs = all strings of length <=3 over {00,01,7F,80,81,FF}, all of length 4..8 over {00,FF}, run families a^n, a^n b, (ab)^n, a^n b^m for n,m in {0..5,126..131,254..258} x 3 letter pairs, size ladder {0..17, 2^k-1,2^k,2^k+1 for k=5..K} x 5 textures (K=17 quick, 21 thorough). Non-trivial = non-empty input accepted by the compressor; distinct by (selector,input).".into();
+    c.rule = "selectors x inputs; inputs = all strings of length <=3 over {00,01,7F,80,81,FF}, all of length 4..8 over {00,FF}, run families a^n, a^n b, (ab)^n, a^n b^m for n,m in {0..5,126..131,254..258} x 3 letter pairs, size ladder {0..17, 2^k-1,2^k,2^k+1 for k=5..K} x 5 textures (K=17 quick; thorough: all6 to length 5, {00,FF} to length 14, all strings of length 6..9 over {00,41,FF}, run counts {0..8,62..66,126..135,254..264,510..514,1022..1026,4094..4098}, break-even sweeps (every split k of a k-byte incompressible prefix + compressible tail) for totals {33,64,86,100,128,200,256,300,512,1000,1024,4096} with zero tails and {86,128,300,512,1024} with period2/sparse/period251 tails, EVERY length 0..1100 x 5 textures, K=23); thorough also runs space `allsel`: every one of the 256 method bytes x the quick input set (a selector the compressor accepts must invert; selectors with an ADPCM bit are judged for length only). Non-trivial = non-empty input accepted by the compressor; distinct by (selector,input).".into();
     c.assume("a compressor refusing a selector/input with Err is a legitimate refusal (counted)");
     c.assume("lossy ADPCM selectors: only length and channel sides are judged");
     c.run_space("main", "");
     c.run_space("adpcm", "");
+    if c.tier == Tier::Thorough {
+        c.run_space("allsel", "");
+    }
     c.extra_cov.insert("selectors".into(), json!(SEL.iter().map(|s| s.0).collect::<Vec<_>>()));
     c.finish();
 }
